@@ -1,6 +1,6 @@
 (* C10 property theorems. Nothing but statements closed by `exact lemma` and Print Assumptions, plus Examples. *)
 From Coq Require Import NArith List Bool.
-From OG Require Import C10.Model C10.Proofs C10.Regex C10.RegexProofs C10.RegexSearch C10.FlushClear.
+From OG Require Import C10.Model C10.Proofs C10.Regex C10.RegexProofs C10.RegexSearch C10.FlushClear C10.ListingCond.
 Import ListNotations.
 Open Scope N_scope.
 
@@ -175,3 +175,26 @@ Example C10_flushclear_example :
     [Some 1; None; Some 1; None; None; Some 1] /\
   snd (run slow_current (empty_index 0) [Insert s; ClearCache; Insert s]) = [Some 1; None; Some 2].
 Proof. vm_compute. split; reflexivity. Qed.
+
+(* ---- listings with a condition and cardinalities (SHOW SERIES ... WHERE, SHOW TAG VALUES ... WHERE, SHOW SERIES CARDINALITY):
+   exactly the series keys / tag values / number of the series whose tags satisfy the predicate, for every matcher ---- *)
+Theorem C10_list_series_cond_exact : forall am L m e s, wfL L -> expr_ok e ->
+  In s (list_series_cond am L m e) <-> exists id, In (s, id) L /\ s_mst s = m /\ eval am e (s_tags s) = true.
+Proof. exact list_series_cond_exact. Qed.
+Theorem C10_list_tag_values_cond_exact : forall am L m k e v, wfL L -> expr_ok e -> k <> 0 ->
+  In v (list_tag_values_cond am L m k e) <->
+  exists s id, In (s, id) L /\ s_mst s = m /\ In (k, v) (s_tags s) /\ eval am e (s_tags s) = true.
+Proof. exact list_tag_values_cond_exact. Qed.
+Theorem C10_cardinality_exact : forall am L m e, wfL L -> expr_ok e ->
+  cardinality am L m e = length (bruteforce am L m e).
+Proof. exact cardinality_exact. Qed.
+Print Assumptions C10_list_series_cond_exact.
+Print Assumptions C10_list_tag_values_cond_exact.
+Print Assumptions C10_cardinality_exact.
+
+Example C10_cond_listing_example :
+  let L := [(mkS 1 [(1, 1); (2, 3)], 101); (mkS 1 [(1, 2)], 102); (mkS 1 [], 103)] in
+  let am := fun p v => (p =? 1) && ((v =? 1) || (v =? 2)) in
+  list_series_cond am L 1 (Atom 2 Eq 0) = [mkS 1 [(1, 2)]; mkS 1 []] /\
+  list_tag_values_cond am L 1 1 (Atom 1 Re 1) = [1; 2] /\ cardinality am L 1 (Atom 1 Nre 1) = 1%nat.
+Proof. vm_compute. repeat split. Qed.
